@@ -789,6 +789,108 @@ func hookChurn(ctx *core.Ctx, bin string, idx int) {
 	ctx.Count("hook_churn_rounds", int64(rounds))
 }
 
+// retention: an endpoint outage longer than the 30 s retention. Messages that
+// are younger than 30 s when the endpoint recovers must still be delivered, in
+// order (older ones may have been dropped).
+func retention(ctx *core.Ctx, bin string) {
+	s, err := srv.Start(srv.Opts{Bin: bin})
+	if err != nil {
+		ctx.Inconclusive(err.Error())
+		return
+	}
+	defer s.Kill9()
+	ep, err := notif.NewEndpoint()
+	if err != nil {
+		ctx.Inconclusive(err.Error())
+		return
+	}
+	defer ep.Close()
+	c, err := respc.Dial(s.Addr(), 5*time.Second)
+	if err != nil {
+		ctx.Inconclusive(err.Error())
+		return
+	}
+	defer c.Close()
+	c.Timeout = 30 * time.Second
+	if rep, err := c.Do(append([]string{"SETHOOK", "ret", ep.URL("/ret")}, fence("inside")...)...); err != nil || rep.IsErr() {
+		ctx.Inconclusive("sethook failed")
+		return
+	}
+	ep.SetDefault(notif.Fail5xx)
+	t0 := time.Now()
+	type sent struct {
+		tok string
+		at  time.Time
+	}
+	var all []sent
+	for i, wait := range []time.Duration{0, 10 * time.Second, 20 * time.Second, 26 * time.Second} {
+		time.Sleep(time.Until(t0.Add(wait)))
+		tok := fmt.Sprintf("ret-m%d", i+1)
+		if rep, err := c.Do("SET", "fleet", "r"+strconv.Itoa(i), "FIELD", "tok", tok, "POINT", "1", "1"); err != nil || rep.IsErr() {
+			ctx.Inconclusive("set failed")
+			return
+		}
+		all = append(all, sent{tok, time.Now()})
+	}
+	time.Sleep(time.Until(t0.Add(33 * time.Second)))
+	ep.SetDefault(notif.Accept)
+	recovered := time.Now()
+	if rep, err := c.Do("SET", "fleet", "marker:ret", "FIELD", "tok", "MARK", "POINT", "1", "1"); err != nil || rep.IsErr() {
+		ctx.Inconclusive("marker failed")
+		return
+	}
+	msgs, v, why := ep.Stream("/ret").Await(isMarkerID, notif.WaitOpts{Addr: s.Addr(), Watchdog: 40 * time.Second})
+	ctx.Eval(1)
+	var got []string
+	for _, m := range msgs {
+		if t := tokOf(m); t != "" && !isMarkerID(m) {
+			got = append(got, t)
+		}
+	}
+	replay := map[string]any{"got": got}
+	switch v {
+	case notif.Inconclusive:
+		ctx.Inconclusive("retention: " + why)
+		return
+	case notif.Lost:
+		ctx.Violation("lost:webhook:after-long-outage:marker", "after a 33 s outage the recovered endpoint never received the marker: "+why, replay)
+		return
+	}
+	// required: every message younger than 25 s at recovery (5 s of slack for the retry cadence and load)
+	var must []string
+	for _, m := range all {
+		if recovered.Sub(m.at) < 25*time.Second {
+			must = append(must, m.tok)
+		}
+	}
+	// got must be a suffix-aligned subsequence of all in order, containing every must
+	idx := map[string]int{}
+	for i, m := range all {
+		idx[m.tok] = i
+	}
+	last := -1
+	for _, g := range got {
+		i, ok := idx[g]
+		if !ok || i <= last {
+			ctx.Violation("duplicate:webhook:after-long-outage", fmt.Sprintf("after a 33 s outage the endpoint received %v: out of order or duplicated", got), replay)
+			return
+		}
+		last = i
+	}
+	have := map[string]bool{}
+	for _, g := range got {
+		have[g] = true
+	}
+	for _, m := range must {
+		if !have[m] {
+			ctx.Violation("lost:webhook:after-long-outage", fmt.Sprintf("endpoint down for 33 s: message %s was queued less than 25 s before the recovery (retention is 30 s) but was never delivered; delivered: %v", m, got), replay)
+			return
+		}
+	}
+	ctx.Count("long_outage_scenarios", 1)
+	ctx.Distinct("webhook|long-outage")
+}
+
 // Run is the C10 check.
 func Run(ctx *core.Ctx) {
 	ctx.Rule = "one fenced collection with channels c1 (all objects) and c2 (MATCH w0*), a webhook h1 on a scripted local endpoint and 0-2 live fences, all `DETECT inside` over the whole world so that every SET produces exactly one notification carrying the write's unique token; 1-8 concurrent writers, 0-3 PUBLISH publishers, an exact and a pattern subscriber from the start, 0-3 subscribers that subscribe and leave while traffic flows, webhook failure patterns {none, refuse (listener closed 0.3-1.5 s), 5xx x k, refuse then 5xx, hang > 5 s (thorough)}; phases end with markers (PUBLISH on the same channels; a marker object for webhook/live). Oracle: the token sequence delivered to each receiver must equal the order of the causing SETs in appendonly.aof exactly (no loss, no duplicate among 2xx-answered requests, in order); PUBLISH per publisher FIFO; a mid-traffic subscriber's sequence must be a contiguous slice of the log order covering every write called after its acknowledgement and acknowledged before it left. non-trivial = a receiver that got >= 2 messages from >= 2 writers, or any outage; distinct key = (receiver kind, configuration)"
@@ -813,6 +915,14 @@ func Run(ctx *core.Ctx) {
 	}
 	var wg sync.WaitGroup
 	sem := make(chan struct{}, 5)
+	// the long-outage scenario takes ~36 s of real time: run it alongside everything else
+	var rwg sync.WaitGroup
+	rwg.Add(1)
+	go func() {
+		defer rwg.Done()
+		retention(ctx, bin)
+	}()
+	defer rwg.Wait()
 	for i, c := range cfgs {
 		wg.Add(1)
 		sem <- struct{}{}
